@@ -245,7 +245,8 @@ def judge(cfg, out):
     for op in program:
       if op[0] in ("pause", "resume", "stop"):
         last[op[1]] = op[0]
-    waiting_players = [b for b in out.blocked if "event.wait" in b]
+    # (parked = blocked in whatever primitive the player waits on for its resume: an Event today)
+    waiting_players = [b for b in out.blocked if any(w in b for w in ("event.wait", "cond.wait", "sem.acquire"))]
     stopped_by_program = set(op[1] for op in program if op[0] == "stop")
     # "left paused": the last control operation is a pause AND the program never stopped that
     # player (a stopped player has to finish whatever is done to it afterwards)
@@ -479,6 +480,11 @@ def gen_programs(run):
     for wait in (False, True):
       yield ([[["play", "one"], ["play", "twohalf"]], wait, False, 1], 2)
       yield ([[["play", "empty"], ["play", "one"]], wait, False, 1], 2)
+  if t["two_players"]["ops"] < 2:
+    # two players parked at the same time (in either order), then a non-waiting close / a resume of one of them:
+    # whoever is woken must be the one that was meant (quick tier; the thorough tier has all two-operation programs)
+    for seq in ([["pause", 1], ["pause", 0]], [["pause", 0], ["pause", 1]], [["pause", 1], ["resume", 1]]):
+      yield ([[["play", "twohalf"], ["play", "twohalf"]] + seq, False, False, 1], 2)
   # the played iterable in other containers (a tuple, a Stream, a one-shot iterator, a deque)
   for wait in (False, True):
     for a in CONTAINER_AUDIOS:
